@@ -27,6 +27,32 @@ from pandas._libs.parsers import STR_NA_VALUES as NA_TOKENS  # noqa: E402
 ISO_FORMS = ['%Y-%m-%d', '%Y-%m-%dT%H:%M:%S', '%Y-%m-%d %H:%M:%S', '%Y-%m-%dT%H:%M:%S.%f', '%Y-%m-%d %H:%M:%S.%f']
 
 
+ABSENT = '\x00absent'
+DIALECT_VALUES = [ABSENT, None, True, False, 0, 1, 2, 'x']
+
+
+def dialect_header_kw(header, count, names):
+    """what the real metadata reader and to_pandas_read_csv_args make of the two dialect keys: the names handed to
+    read_csv together with header=None, or None when the header row is kept"""
+    from tdda.serial.csvw import CSVWMetadata
+    from tdda.serial.pandasio import to_pandas_read_csv_args
+    dialect = {}
+    if header != ABSENT:
+        dialect['header'] = header
+    if count != ABSENT:
+        dialect['headerRowCount'] = count
+    spec = {'@context': 'http://www.w3.org/ns/csvw', 'url': 't.csv',
+            'tableSchema': {'columns': [{'name': n, 'datatype': 'string'} for n in names]}, 'dialect': dialect}
+    try:
+        with contextlib.redirect_stdout(io.StringIO()), contextlib.redirect_stderr(io.StringIO()):
+            kw = to_pandas_read_csv_args(CSVWMetadata(spec, verbosity=0))
+    except Exception as e:   # noqa
+        return {'exc': type(e).__name__}
+    if 'header' in kw and kw['header'] is None:
+        return kw.get('names')
+    return None
+
+
 def render(toks, seps):
     out = toks[0]
     for s, t in zip(seps, toks[1:]):
@@ -148,7 +174,8 @@ class C16(core.Prop):
     theorems = ['TddaVerif.Props.C16.' + t for t in [
         'chain_ok', 'applyChain_append_sep', 'token_translated', 'separated_translated',
         'translate_separated', 'unseparated_forms', 'adjacent_month_minute_unsound',
-        'iso_collapse_sound', 'iso_regex_source', 'dtype_table', 'dtype_table_total']] + [
+        'iso_collapse_sound', 'iso_regex_source', 'dtype_table', 'dtype_table_total',
+        'headerless_iff', 'declared_headerless', 'default_has_header', 'tie_header_rule']] + [
         'TddaVerif.Py.replace_append_sep']
     quick_n = 1500
     thorough_n = 60000
@@ -157,12 +184,13 @@ class C16(core.Prop):
             'stream (contains %, empty, adjacent fields, extension tokens, other letters); for sensible layouts an '
             'instant representable in the pattern is written by the harness writer and read back with '
             'pandas.to_datetime(format=translated); (table) typed tables x delimiter x encoding x header x '
-            'date patterns x boolean spellings written by the harness, loaded with csv2pandas. '
+            'date patterns x boolean spellings written by the harness, loaded with csv2pandas; (dialect) header x headerRowCount, '
+            'each absent / null / true / false / 0 / 1 / 2 / a string. '
             'non-trivial = pattern with >= 2 fields, or table with >= 1 row and >= 2 columns; distinct by content')
     trusted_base = [
         'the translator harness/translate.py (ast walk of csvw_date_format_to_md_date_format) that regenerates Generated/Csvw.lean',
         'pandas.read_csv / to_datetime (strptime semantics) are not modelled: the read-back of instants and the table round trip are decided by the oracle on the real code',
-        'modelled: csvw_date_format_to_md_date_format incl. the % short-circuit, extensions chain and ISO8601 collapse (tied by the date_format op); the type tables (generated)',
+        'modelled: csvw_date_format_to_md_date_format incl. the % short-circuit, extensions chain and ISO8601 collapse (tied by the date_format op); the type tables (generated); the header rule of process_dialect / to_pandas_read_csv_args (expression, keys and test regenerated; tied by the dialect op on all 64 combinations of eight values of the two keys)',
     ]
 
     def translate(self):
@@ -180,6 +208,10 @@ class C16(core.Prop):
                   'yyyyy', 'mmm', 'dd-MM-yyyy HH:mm:ss.SSS']:
             out.append({'kind': 'rawfmt', 'fmt': f, 'ext': False})
             out.append({'kind': 'rawfmt', 'fmt': f, 'ext': True})
+        # every combination of the two dialect keys that say whether there is a header row
+        for h in DIALECT_VALUES:
+            for c in DIALECT_VALUES:
+                out.append({'kind': 'dialect', 'header': h, 'count': c})
         return out
 
     def gen_case(self, rng, i):
@@ -247,13 +279,15 @@ class C16(core.Prop):
         return {'kind': 'table', 'cols': cols, 'nrow': nrow,
                 'delimiter': rng.choice([',', ',', '|', '\t', ';', None]),
                 'encoding': rng.choice(['utf-8', 'utf-8', 'latin-1', 'utf-16', None]),
-                'header': rng.choice([True, True, True, False])}
+                'header': rng.choice([True, True, True, False]), 'no_header_how': rng.randrange(3)}
 
     # ---------------------------------------------------------------
     def _fmt(self, case):
         return render(case['toks'], case['seps']) if case['kind'] == 'fmt' else case['fmt']
 
     def model_ops(self, case):
+        if case['kind'] == 'dialect':
+            return [{'op': 'c16.dialect', 'header': case['header'], 'count': case['count'], 'names': ['a', 'b c']}]
         if case['kind'] == 'table':
             ops = []
             for c in case['cols']:
@@ -265,6 +299,8 @@ class C16(core.Prop):
 
     def impl_outputs(self, case):
         from tdda.serial.pandasio import MTYPE_TO_PANDAS_DTYPE
+        if case['kind'] == 'dialect':
+            return [dialect_header_kw(case['header'], case['count'], ['a', 'b c'])]
         if case['kind'] == 'table':
             out = []
             for c in case['cols']:
@@ -286,6 +322,9 @@ class C16(core.Prop):
         if case['kind'] == 'rawfmt':
             self.count('rawfmt')
             return None
+        if case['kind'] == 'dialect':
+            self.count('dialect')
+            return json.dumps(case, sort_keys=True)
         self.count('table')
         if case['nrow'] >= 1 and len(case['cols']) >= 2:
             return json.dumps(case, sort_keys=True, default=str)
@@ -295,6 +334,16 @@ class C16(core.Prop):
     def oracle(self, case):
         F = []
         fail = lambda clause, detail, key=None: F.append(core.Failure(clause, case, detail, key or clause))
+        if case['kind'] == 'dialect':
+            # the documented reading: header: false or headerRowCount: 0 -> no header row, names from the metadata
+            got = dialect_header_kw(case['header'], case['count'], ['a', 'b c'])
+            h, c = case['header'], case['count']
+            zero = lambda v: v is False or (isinstance(v, (int, float)) and not isinstance(v, bool) and v == 0)
+            declared = zero(h) or zero(c)
+            want = ['a', 'b c'] if declared else None
+            if got != want:
+                fail('header-row', 'dialect header=%r headerRowCount=%r: read_csv gets names %r, expected %r' % (h, c, got, want))
+            return F
         if case['kind'] == 'rawfmt':
             try:
                 csvwmod.csvw_date_format_to_md_date_format(case['fmt'], extensions=case['ext'])
@@ -401,8 +450,12 @@ class C16(core.Prop):
             if case['encoding']:
                 dialect['encoding'] = case['encoding']
             if not case['header']:
-                dialect['header'] = False
-                dialect['headerRowCount'] = 0
+                # the three ways a CSVW dialect says "no header row": both keys, headerRowCount: 0 alone, header: false alone
+                how = case.get('no_header_how', 0)
+                if how != 1:
+                    dialect['header'] = False
+                if how != 2:
+                    dialect['headerRowCount'] = 0
             md = {'@context': 'http://www.w3.org/ns/csvw', 'url': 't.csv',
                   'tableSchema': {'columns': columns}}
             if dialect:
